@@ -114,7 +114,7 @@ def mutate_tree(rng, payload):
 GAPS = [0, 1, 3, 7, 8, 9, 100]
 
 
-def rewrite_cases(rng, n, readers=("cursor", "strict", "lenient"), sparse=True, huge=0.0):
+def rewrite_cases(rng, n, readers=("cursor", "strict", "lenient"), sparse=True, huge=0.5):
     """accepted-mostly inputs whose moov follows the media: varied gaps, headers, tables (C01/C02/C04 focus)"""
     for _ in range(n):
         L = Layout()
@@ -128,7 +128,7 @@ def rewrite_cases(rng, n, readers=("cursor", "strict", "lenient"), sparse=True, 
             L.add(box(t, b"\0" * rng.choice([0, 1, 5, 12, 40]), form=rng.choice(["32", "64"])))
         big_gap = sparse and rng.random() < 0.15
         if big_gap:
-            # gaps of 2^31..2^32 make the real sanitizer return a multi-GiB padding box: only a few per run
+            # (before the D6 repair gaps of 2^31..2^32 made the sanitizer return a multi-GiB padding box)
             g = rng.choice([2**31 - 1, 2**31, 2**31 + 1, 2**32 - 9, 2**32 - 8]) if rng.random() < huge else rng.choice([2**32 + 4096, 2**20, 2**33, 2**16])
             L.add(box(b"free", b"", form="64", size=g), virtual=g)
         media_start = L.total()
@@ -318,10 +318,22 @@ def huge_pad_cases():
         yield case_line("strict", DEFAULT_MAX, None, L.total(), L.exts()), "huge-pad"
 
 
+def displacement_boundary():
+    """gap exactly 2^31 - 1, 2^31, 2^31 + 1 with entries that can / cannot absorb the backward shift (sparse)"""
+    f = F()
+    for gap in (2**31 - 1, 2**31, 2**31 + 1):
+        for w, ents in ((8, [2**31 + 5]), (8, [2**31 - 1, 2**40]), (4, [2**31 + 7, 2**32 - 1]), (4, [5])):
+            mv = simple_moov([(w, ents)])
+            fill = gap + len(mv)
+            L = Layout().add(f).add(box(b"free", b"", form="64", size=fill), virtual=fill).add(box(b"mdat", b"abc")).add(mv)
+            for rd in ("strict", "lenient"):
+                yield case_line(rd, DEFAULT_MAX, None, L.total(), L.exts()), "displacement-boundary"
+
+
 def standard_stream(run, rewrite_n, mut_n, seq_len, seq_sample=None):
     rng = run.rng
-    if run.tier == "thorough" or run.prop in ("C01", "C10"):
-        yield from huge_pad_cases()
+    yield from huge_pad_cases()
+    yield from displacement_boundary()
     for lay in seed_layouts(rng):
         for rd in ("cursor", "strict"):
             yield case_dense(rd, DEFAULT_MAX, None, b"".join(lay)), "seed-layouts"
